@@ -121,7 +121,7 @@ def run_vh(sub, tier, stage=None, profile="release", cases=None, extra=(), sd=No
     if cases is not None:
         cmd += ["--cases", str(cases)]
     cmd += list(extra)
-    env = dict(os.environ, COPIA_BIN=COPIA, RUST_BACKTRACE="0")
+    env = dict(os.environ, COPIA_BIN=COPIA, RUST_BACKTRACE="0", VH_SHIM=SHIM)
     if VARIANT == "asan":
         env["VH_NO_RLIMIT"] = "1"
         if os.environ.get("VERIF_ASAN_LOG"):
